@@ -172,6 +172,7 @@ func main() {
 	run.Floor("growth_steps", 60)
 	run.Floor("restarts", 2)
 	run.Floor("db_lock_episodes", 1)
+	run.Floor("services_with_five_forked_logs", 1)
 	run.Floor("fork_observations", 2)
 	run.Floor("feeder:sumdb", 10)
 	run.Floor("feeder:tiles", 10)
@@ -190,6 +191,11 @@ func oneService(run *ev.Run, unit int64, r *rand.Rand, dir string) {
 		s.dbPath = filepath.Join(dir, fmt.Sprintf("omni-%d.db", unit))
 	}
 	nlogs := 2 + r.IntN(3)
+	nforks := 1
+	if unit%4 == 3 {
+		// many logs, most of them misbehaving at once: the honest ones must still be followed
+		nlogs, nforks = 7, 5
+	}
 	var y strings.Builder
 	y.WriteString("Logs:\n")
 	for i := 0; i < nlogs; i++ {
@@ -275,6 +281,11 @@ func oneService(run *ev.Run, unit int64, r *rand.Rand, dir string) {
 		}
 		deadline := time.Now().Add(90 * time.Second)
 		lastActivity, lastFetches := time.Now(), -1
+		lastPoll := map[*svcLog]time.Time{}
+		lastCount := map[*svcLog]int{}
+		for _, l := range s.logs {
+			lastPoll[l], lastCount[l] = time.Now(), l.stub.Fetches()
+		}
 		for {
 			all := true
 			total := 0
@@ -301,6 +312,13 @@ func oneService(run *ev.Run, unit int64, r *rand.Rand, dir string) {
 				code, raw := s.served(l.id)
 				if code != 0 {
 					lastActivity = time.Now()
+				}
+				if f := l.stub.Fetches(); f != lastCount[l] {
+					lastCount[l], lastPoll[l] = f, time.Now()
+				} else if code != 0 && time.Since(lastPoll[l]) > 30*time.Second {
+					// the service answers its API, yet this log has not been polled for 60 poll intervals
+					fail(fmt.Sprintf("log_not_polled;feeder_sumdb=%v;event=%s", l.stub.SumDB, event), fmt.Sprintf("%s published size %d; the service is up (its API answers) but has not fetched this log's checkpoint for %d s (poll interval 0.5 s)", l.host, l.size, int(time.Since(lastPoll[l]).Seconds())), map[string]any{"published": x.text})
+					return false
 				}
 				if code == 200 && s.matches(l, raw, x.text) {
 					x.ok = true
@@ -443,8 +461,21 @@ func oneService(run *ev.Run, unit int64, r *rand.Rand, dir string) {
 		}
 	}
 	// fork: one log starts serving a history that does not extend the witnessed one
+	var alsoForked []*svcLog
+	if okSoFar && nforks > 1 {
+		// the other misbehaving logs: each switches to a larger history that does not extend the witnessed one
+		for _, o := range s.logs[1:nforks] {
+			o.fork = &reftree.Tree{Seed: o.tree.Seed, TagA: 1, TagB: 2, Fork: o.size / 2}
+			o.stub.Publish(o.fork, o.size+1+uint64(r.IntN(50)))
+			alsoForked = append(alsoForked, o)
+		}
+		run.Count("services_with_five_forked_logs")
+	}
 	if okSoFar {
 		l := s.logs[r.IntN(len(s.logs))]
+		if nforks > 1 {
+			l = s.logs[0]
+		}
 		_, witnessed := l.stub.Checkpoint()
 		forkAt := l.size / 2
 		l.fork = &reftree.Tree{Seed: l.tree.Seed, TagA: 1, TagB: 2, Fork: forkAt}
@@ -490,17 +521,21 @@ func oneService(run *ev.Run, unit int64, r *rand.Rand, dir string) {
 		run.Distinct("nontrivial", "fork/"+ft+"/"+storage+"/"+variant)
 		trace = append(trace, fmt.Sprintf("fork on %s at %d: served checkpoint stayed on the witnessed text for %d polls", l.host, forkAt, l.stub.Fetches()-base))
 		// the other logs must still make progress
+		forked := map[*svcLog]bool{l: true}
+		for _, o := range alsoForked {
+			forked[o] = true
+		}
 		for _, o := range s.logs {
-			if o != l {
+			if !forked[o] {
 				o.size += 5
 				o.stub.Publish(nil, o.size)
 			}
 		}
-		// (the forked log never converges: exclude it)
+		// (the forked logs never converge: exclude them)
 		keep := s.logs
 		var rest []*svcLog
 		for _, o := range s.logs {
-			if o != l {
+			if !forked[o] {
 				rest = append(rest, o)
 			}
 		}
